@@ -151,6 +151,11 @@ impl Case {
 
 fn final_frame(c: &CallSpec, name: &str, i: usize, more: bool) -> Vec<u8> {
     match c.err {
+        // replies that end the exchange with a failure the method's error type does not cover:
+        // an undeclared error, a standard service error, a frame that is not a reply at all
+        3 => br#"{"error":"io.systemd.System","parameters":{"errno":5}}"#.to_vec(),
+        4 => br#"{"error":"org.varlink.service.MethodNotFound","parameters":{"method":"org.example.Nope"}}"#.to_vec(),
+        5 => br#"{"parameters":{"name":"#.to_vec(),
         1 => br#"{"error":"org.example.Bad"}"#.to_vec(),
         2 => format!(r#"{{"error":"org.example.Worse","parameters":{{"code":{i},"msg":"{name}"}}}}"#).into_bytes(),
         _ if c.bare => {
@@ -254,7 +259,7 @@ pub fn run_case(case: &Case) -> Run {
     }
     run.writes = handle.writes();
     // What is left for a later exchange on the same connection.
-    for _ in 0..case.trailing as usize + 1 {
+    for _ in 0..case.owed_frames().len() + case.trailing as usize + 1 {
         let o = match run_until_ready(conn.receive_reply::<OptParams, ErrA>(), budget) {
             Some(r) => classify_reply(r),
             None => Outcome::Pending,
@@ -300,6 +305,35 @@ pub fn judge(case: &Case, run: &Run) -> CaseResult {
     }
     // (2) exactly the owed replies, then None
     let owed: Vec<Outcome> = case.owed_frames().iter().map(|f| expected_outcome(f)).collect();
+    // A reply that is reported as a top-level failure (undeclared error, service error, not a
+    // reply): the statement does not say whether the stream goes on to the replies of the later
+    // calls or stops there (the current tree stops). Both are accepted; what is not accepted is
+    // anything else - in particular treating the failed reply as if it had not been the final
+    // reply of its call, which shifts every later reply to the wrong call and over-reads.
+    if let Some(j) = owed.iter().position(|o| !matches!(o, Outcome::Msg(m) if !m.starts_with("service-error"))) {
+        let stopped = run.items == owed[..=j] && run.end == "none";
+        let went_on = run.items == owed && run.end == "none";
+        if !(stopped || went_on) {
+            let sig = if run.items.len() > owed.len() { format!("{lane}-stream-consumed-foreign-frame") } else { format!("{lane}-stream-after-failed-reply") };
+            return Err(Fail::new(
+                &sig,
+                format!("owed {} replies {:?} (reply {j} is a top-level failure); stream yielded {:?} and ended with {:?}", owed.len(), owed, run.items, run.end),
+            ));
+        }
+        if run.polls_for_none != 0 {
+            return Err(Fail::new(&format!("{lane}-stream-reads-after-last-owed"), format!("the poll that returned None polled the transport {} time(s)", run.polls_for_none)));
+        }
+        let mut after: Vec<Outcome> = if stopped { owed[j + 1..].to_vec() } else { vec![] };
+        after.extend(case.trailing_frames().iter().map(|f| expected_outcome(f)));
+        after.push(Outcome::Pending);
+        if run.after != after {
+            return Err(Fail::new(
+                &format!("{lane}-later-exchange-disturbed"),
+                format!("after a stream that {} at the failed reply {j}, later receive_reply calls should see {after:?}, saw {:?}", if stopped { "stopped" } else { "went on" }, run.after),
+            ));
+        }
+        return Ok(());
+    }
     if run.items != owed || run.end != "none" {
         let sig = if run.items.len() > owed.len() {
             format!("{lane}-stream-consumed-foreign-frame")
@@ -370,6 +404,9 @@ pub fn check_case(case: &Case, stats: &mut Stats) -> CaseResult {
     if case.calls.iter().any(|c| c.kind == Kind::More && c.err > 0) {
         stats.class("more-call-ends-with-error");
     }
+    if case.calls.iter().any(|c| c.kind != Kind::Oneway && c.err >= 3) {
+        stats.class("reply-is-a-top-level-failure(undeclared/service error/garbage)");
+    }
     if case.reply_stream_bytes().len() > 256 {
         stats.class("replies>256B");
     }
@@ -388,7 +425,7 @@ fn call_spec_strategy() -> impl Strategy<Value = CallSpec> {
     (
         prop_oneof![Just(Kind::Plain), Just(Kind::Oneway), Just(Kind::More)],
         0u8..=3,
-        prop_oneof![3 => Just(0u8), 1 => Just(1u8), 1 => Just(2u8)],
+        prop_oneof![12 => Just(0u8), 4 => Just(1u8), 4 => Just(2u8), 1 => Just(3u8), 1 => Just(4u8), 1 => Just(5u8)],
         any::<bool>(),
         prop_oneof![4 => 0u16..8, 1 => 180u16..300, 1 => 0u16..700],
         prop_oneof![5 => Just(0u16), 2 => 0u16..40, 1 => 150u16..300, 1 => 0u16..700],
